@@ -338,19 +338,37 @@ def through(cell):
         return ok
     except OSError:
         return False
-for cell, ok in zip(cells, run_parallel(cells, through, workers=6)):
+def judge(cell, ok, history):
+    global evals
     k, insecure, cert, name = cell
     evals += 1
     if isinstance(ok, tuple):
         machinery(f'{cell}: {ok}')
-    distinct.add(('tls-connector', k, insecure, cert, ok))
-    replay = {'connector': k, 'insecure': insecure, 'upstream_certificate': cert, 'tunnel_established': ok}
+    distinct.add(('tls-connector', k, insecure, cert, ok, history))
+    replay = {'connector': k, 'insecure': insecure, 'upstream_certificate': cert, 'tunnel_established': ok, 'history': history}
     byaddr = name.endswith('byaddr')
     replay['upstream_named_by'] = 'address literal' if byaddr else 'host name'
     if not insecure and cert != 'valid' and ok:
-        chk.violation('tls.connector', f'tunnel-through-unverified-upstream:{k}/{cert}' + ('/by-address' if byaddr else ''), f'{k} connector without insecure ({replay["upstream_named_by"]}): a tunnel was established through an upstream presenting a {cert} certificate', replay)
+        chk.violation('tls.connector', f'tunnel-through-unverified-upstream:{k}/{cert}' + ('/by-address' if byaddr else ''), f'{k} connector without insecure ({replay["upstream_named_by"]}; {history}): a tunnel was established through an upstream presenting a {cert} certificate', replay)
     if not ok and (insecure or (cert == 'valid' and not byaddr)):
-        chk.violation('tls.connector', f'legitimate-upstream-refused:{k}/{"insecure" if insecure else "verify"}/{cert}', f'{k} connector insecure={insecure}, upstream certificate {cert}: no tunnel', replay)
+        chk.violation('tls.connector', f'legitimate-upstream-refused:{k}/{"insecure" if insecure else "verify"}/{cert}', f'{k} connector insecure={insecure}, upstream certificate {cert} ({history}): no tunnel', replay)
+for cell, ok in zip(cells, run_parallel(cells, through, workers=6)):
+    judge(cell, ok, 'first use, all connectors at once')
+# histories: what one connector has negotiated with an upstream (a TLS session that can be resumed, for one) must not
+# count for another connector with a stricter policy towards the same server name. Every lenient connector is used
+# again, then every verifying one, one after the other, twice; then the verifying ones after a lenient connector of the
+# same kind was used immediately before each of them
+lenient = [c for c in cells if c[1]]
+strict = [c for c in cells if not c[1]]
+for rnd in (2, 3):
+    for cell in lenient + strict:
+        judge(cell, through(cell), f'round {rnd}: after every connector was used, lenient ones before verifying ones')
+for cell in strict:
+    k, insecure, cert, name = cell
+    mate = [c for c in lenient if c[0] == k and c[2] == cert and c[3].endswith(name[-6:])][0]
+    ok1 = through(mate)
+    judge(mate, ok1, 'immediately before its verifying twin')
+    judge(cell, through(cell), 'immediately after the lenient connector to the same upstream')
 samples.append({'connector': 'socks', 'insecure': False, 'upstream_certificate': 'wrongname', 'expect': 'no tunnel'})
 if not pC.alive():
     chk.violation('process', 'proxy-died', f'exit {pC.returncode()}: {pC.log()[-300:]}', {})
@@ -363,6 +381,6 @@ for o in list(tls_up.values()) + list(cecho.values()) + [echo]:
 if evals < 500 or len(distinct) < 20:
     machinery(f'vacuous: evals={evals} distinct={len(distinct)}')
 cov = {'evaluations': evals, 'distinct_nontrivial': len(distinct), 'transitions': evals, 'traces_validated_against_impl': evals,
-       'rule': 'real binary: (1) 4 listener auth configurations x all method-offer lists of length 0-3 over {0,1,2,0x80,0xff} (quick: length-3 lists with distinct methods) x 9 credential pairs x command {CONNECT, UDP ASSOCIATE for offers of length <= 2} + SOCKS4 ids; (2) listener {http,socks,quic} x client certificate policy {absent,optional,required} x presented {none,valid,foreign}; (3) connector {http,socks,quic} x upstream named by host name / address literal x insecure x upstream certificate {valid,foreign,wrongname}; routed = success reply and echo round trip',
+       'rule': 'real binary: (1) 4 listener auth configurations x all method-offer lists of length 0-3 over {0,1,2,0x80,0xff} (quick: length-3 lists with distinct methods) x 9 credential pairs x command {CONNECT, UDP ASSOCIATE for offers of length <= 2} + SOCKS4 ids; (2) listener {http,socks,quic} x client certificate policy {absent,optional,required} x presented {none,valid,foreign}; (3) connector {http,socks,quic} x upstream named by host name / address literal x insecure x upstream certificate {valid,foreign,wrongname}, each connector used first with all others at once, then in two sequential rounds (lenient before verifying) and once right after its lenient twin (session resumption across connectors); routed = success reply and echo round trip',
        'socks_sessions': len(cases), 'tls_listener_cells': len(tls_cases), 'tls_connector_cells': len(cells), 'schedule_control': 'kernel', 'samples': samples}
 sys.exit(chk.finish('model_checking', cov, ['E4 part: certificates minted by bin/mkcerts with openssl; the QUIC listener is reached through a front redproxy hop acting as QUIC client']))
